@@ -132,18 +132,27 @@ def run_property(prop, tier):
             functions.update(r.get("functions", o.functions))
             entry = {"id": o.id, "engine": "M", "bounds": o.bounds}
             entry.update({k: v for k, v in r.items() if k not in ("cex",)})
+            entry.pop("violations", None)
             if r["status"] == "violation":
-                key = "%s:%s" % (o.id, r.get("role", "any"))
-                what = known.match(prop, key)
-                if what is not None:
-                    out_lines.append("KNOWN-FINDING: property=%s %s [%s]" % (prop, what, key))
-                    entry["status"] = "known"
-                else:
-                    path = save_cex(prop, o.id, {"property": prop, "obligation": o.id, "engine": "M",
-                                                 "key": key, "cex": r.get("cex"), "detail": r.get("detail")})
+                new_found = False
+                for v in [v for v in r.get("violations", []) if v["confirmed"]]:
+                    key = "%s:%s" % (o.id, v["role"])
+                    what = known.match(prop, key)
+                    if what is not None:
+                        out_lines.append("KNOWN-FINDING: property=%s %s [%s]" % (prop, what, key))
+                        continue
+                    new_found = True
+                    path = save_cex(prop, o.id + ("" if v["role"] in ("any",) else "-" + v["role"]),
+                                    {"property": prop, "obligation": o.id, "engine": "M",
+                                     "key": key, "cex": v.get("cex"), "detail": v.get("detail")})
                     entry["replay"] = path
                     out_lines.append("VIOLATION property=%s replay=%s" % (prop, path))
-                    out_lines.append("  obligation %s: %s" % (o.id, str(r.get("detail"))[:400]))
+                    out_lines.append("  obligation %s: %s" % (o.id, str(v.get("detail"))[:400]))
+                if not new_found:
+                    # only listed findings reproduced; an unconfirmed counter-example still refuses a pass
+                    entry["status"] = "inconclusive" if r.get("unconfirmed") else "known"
+                    if r.get("unconfirmed"):
+                        entry["detail"] = r["unconfirmed"]
             results.append(entry)
 
     nviol = sum(1 for e in results if e["status"] == "violation")
